@@ -20,6 +20,7 @@ var c05Ops = []string{
 	"create-assoc-full", "create-batches-session", "create-many2many", "delete-many2many-select", "create-many2many-full",
 	"create-polymorphic", "save-assoc-existing", "save-assoc-new-children", "updates-assoc-full", "delete-assoc-select-hasmany",
 	"create-back-reference", "create-slice-assoc", "save-hooks-existing",
+	"create-slice-hasone", "create-hasmany-children-hasone",
 }
 
 func N_C05_Ops(tier int) int { return len(c05Ops) }
@@ -77,6 +78,12 @@ func H_C05_Ops(shape int) {
 		res = db.Create(o)
 	case "create-slice-assoc":
 		res = db.Create(&[]Owner{{Name: "o1", Pets: []Pet{{Name: "p1"}}}, {Name: "o2", Company: &Company{Name: "c"}}})
+	case "create-slice-hasone":
+		// has-one rows of a slice of owners
+		res = db.Create(&[]Owner{{Name: "o1", Profile: Profile{Bio: "b1"}}, {Name: "o2", Profile: Profile{Bio: "b2"}}})
+	case "create-hasmany-children-hasone":
+		// has-many children that each carry a has-one of their own (children are saved as a slice)
+		res = db.Create(&Kennel{Name: "k", Keepers: []Keeper{{Name: "a", Badge: Badge{Code: "x"}}, {Name: "b", Badge: Badge{Code: "y"}}}})
 	case "save-hooks-existing":
 		res = db.Save(&HRec{ID: 3, Name: "r", Kids: []HKid{{Name: "k"}}})
 	case "create-batches-3/2":
